@@ -107,9 +107,10 @@ theorem never_suspends (w w' : World) (st st' : St) (res : List Res) (newP : Lis
 /-- **the overbook scheduler never raises over whole runs** (closed loop with the executor, memory overcommit on, either container mode): its queue holds
 distinct, existing, ready operators (`QOK`); every container it starts holds one operator, one CPU and the whole pool's RAM on a pool whose free CPUs it does not
 exceed, so the executor's gates let every round through; an executor tick without suspensions never touches a PENDING or FAILED operator, so the queue stays good.
-By induction over ticks, for every sequence of arrival batches. -/
+By induction over ticks, for every sequence of arrival batches.  The invariant holds again in the world the run ends in — hence at every tick boundary of every
+run: **every container holds exactly one operator and no write-out is ever in progress** (`OBInv.single`, `OBInv.nosusp`). -/
 theorem overbook_run_never_raises (arrivals : List (List Nat)) (w : World) (st : St) (res : List Res) (inv : OBInv w st res) :
-    ∃ out, Overbook.loop w st res arrivals = .ok out :=
+    ∃ w' st' res', Overbook.loop w st res arrivals = .ok (w', st', res') ∧ OBInv w' st' res' :=
   Overbook.run_never_raises arrivals w st res inv
 
 /-- the hypotheses are met by a concrete world (diamond DAG, two pools, overcommit on, nothing started): non-vacuity -/
